@@ -410,6 +410,9 @@ func (w *world) faultSave(op *Op, hs *raftpb.HardState, es []raftpb.Entry, sn *r
 		if strings.HasPrefix(hit, "zerofill-") {
 			w.c.Unrep = append(w.c.Unrep, len(w.c.Outs))
 		}
+		if hit == "remove" {
+			w.c.UnrepDel = append(w.c.UnrepDel, len(w.c.Outs))
+		}
 		// the error was not reported: the Save counts as acknowledged, so everything must be there - now and after
 		// the process dies (the ordinary oracle checks the live store right after this returns)
 		full := &saveCtx{oldFirst: c.oldFirst, oldHS: c.newHS, newHS: c.newHS, oldSnap: c.newSnap, newSnap: c.newSnap}
